@@ -586,6 +586,11 @@ _c07 = PROPS["C07"]
 thm("C08", ["C08"], ["C08_no_leak_events", "C08_table_complete"])
 thm("C09", ["C08", "C09X"], ["C09_block_functions", "C09_table_complete", "C09_vector_batch_functions", "C09_vector_table_complete", "C09_xor_blocks", "C09_xor_partial", "C09_xor_access", "C11_no_junk_in_loaders"])
 PROPS["C09"]["modules"].append("SkinnyVerif.Properties.C11")
+# the hand-modelled glue: control-flow / address trace of the CTR loop and extents of the bulk loops (Properties/C08G.lean)
+PROPS["C08"]["modules"].append("SkinnyVerif.Properties.C08G")
+PROPS["C08"]["theorems"] += [P + "C08_ctr_trace_public", P + "C08_ctr_trace_secret_independent", P + "ctrLoopT_erase"]
+PROPS["C09"]["modules"].append("SkinnyVerif.Properties.C08G")
+PROPS["C09"]["theorems"] += [P + "C09_ctr_extent", P + "C09_parallel_extent", P + "ctrLoopT_erase"]
 thm("C18", ["C18", "C13", "C18I"], ["C18_no_mutable_statics", "C18_census_nonempty", "C18_parallel_crypt_read_only", "C18_mantis_parallel_crypt_read_only", "setVal_comm", "C13_deterministic",
             "callStep_frame", "C18_calls_commute", "C18_interleaving", "C18_interleaving_reachable", "goodW_of_inv"])
 thm("C19", ["C19", "C19M", "C06"], ["C19_skinny128", "C19_skinny128_eq_C", "C19_tweaked128", "C19_skinny64", "C19_tweaked64", "C19_mantis8", "C19_mantis8_swap",
